@@ -81,11 +81,12 @@ class C19:
     def coq_case(self, c, out):
         if c.line.startswith("trk"):
             t = c.line.split()
-            pumps, contacted, cands = [x.strip() for x in out.split("|")]
+            pumps, contacted, cands, kill = [x.strip() for x in out.split("|")]
             lst = lambda x: "[%s]" % ("" if x == "-" else ";".join(x.split(",")))
-            return "CFaults %s %s %s [%s] %s %s" % (t[1], lst(t[2]), t[3],
-                                                    ";".join("true" if p == "OK" else "false" for p in pumps.split(",")),
-                                                    lst(contacted), lst(cands))
+            return "CFaults %s %s %s [%s] %s %s %s" % (t[1], lst(t[2]), t[3],
+                                                       ";".join("true" if p == "OK" else "false" for p in pumps.split(",")),
+                                                       lst(contacted), lst(cands),
+                                                       {"-": "None", "OK": "(Some true)", "BLOCKED": "(Some false)"}[kill])
         doc = hexb(c.line.split()[1])
         out = out.strip()
         if out == "ERR":
@@ -111,7 +112,9 @@ class C19:
             k = rng.choice([0, 1, 3, 11, 12, 20])
             peers = rng.sample(range(1, 200), k)
             interested = rng.choice([0, 0, 2, 10, 11, 12])
-            c = Case("trk %d %s %d" % (n, ",".join(map(str, peers)) or "-", interested), "faults", {"fails": n, "peers": k, "interested": interested})
+            kill = " kill" if rng.random() < 0.5 else ""
+            c = Case("trk %d %s %d%s" % (n, ",".join(map(str, peers)) or "-", interested, kill), "faults" + ("+disconnect" if kill else ""),
+                     {"fails": n, "peers": k, "interested": interested})
             out.append(c)
         return out
 
